@@ -27,12 +27,17 @@ pub struct ConnWorld {
 
 /// Connect a bare Connection to the scripted peer. Runs entirely on the paused clock.
 pub async fn conn_world(ctx: &WorkerCtx, our_flags: u64, peer_flags: u64) -> Result<ConnWorld, String> {
+    conn_world_with(ctx, our_flags, peer_flags, &[]).await
+}
+
+/// As `conn_world`, with `after_ack` written in the same segment as the peer's challenge acknowledgement.
+pub async fn conn_world_with(ctx: &WorkerCtx, our_flags: u64, peer_flags: u64, after_ack: &[u8]) -> Result<ConnWorld, String> {
     let w = World::new(ctx.heartbeat.clone(), &ctx.listeners).await;
     let cfg = ConnectionConfig::new("me@127.0.0.1", PEER_NAME, COOKIE).with_epmd_host("127.0.0.1").with_flags(DistributionFlags::new(our_flags));
     let mut conn = Connection::new(cfg);
     let h = tokio::spawn(async move { let r = conn.connect().await; (conn, r) });
     let mut peer = w.accept_peer().await.ok_or("library never connected to the peer")?;
-    let announced = w.peer_handshake(&mut peer, peer_flags).await?;
+    let announced = w.peer_handshake_with(&mut peer, peer_flags, after_ack).await?;
     let mut h = h;
     loop { w.yield_once().await; if h.is_finished() { break; } }
     let (conn, r) = (&mut h).await.map_err(|e| format!("connect task: {}", e))?;
